@@ -713,6 +713,7 @@ namespace occa {
       }
 
       push();
+      fp.start += 2; // Skip /*
 
       bool finishedComment = false;
       while (!finishedComment && *fp.start != '\0') {
